@@ -25,7 +25,9 @@ META = dict(
          "WithCustomFallbackPartitioner) x every corner int32 hash {-2^31, -2^31+1, -n-1..n+1, multiples of n +-1 up to the "
          "int32 limits, 2^31-2, 2^31-1} and FNV keys, nil keys and keys without bytes in each spelling (ByteEncoder{}, "
          "StringEncoder(\"\"), ByteEncoder(nil)) x n in 1..16, all 3-call behaviours over a small key "
-         "set, all round-robin call sequences of length 6 with n in 1..4 changing freely, seeded long behaviours, and every "
+         "set, all round-robin call sequences of length 6 with n in 1..4 changing freely, round-robin behaviours from preset cursors "
+         "(n-1, n, n+1 of the current count; MaxInt32-2..MaxInt32 standing for ~2^31 earlier calls; thorough also makes the 2^31 "
+         "calls for real and records the tail), seeded long behaviours, and every "
          "interleaving of the calls (split into Reset+Write / Sum32) of two instances handed out by one constructor value; for the "
          "producer every topic with 1..3 partitions (thorough: 4) x every leaderless subset x 9 partitioner kinds (built-in, "
          "custom static/dynamic consistency, scripted out-of-range/negative/error returns) x every 2-message input (hash kinds: "
@@ -55,6 +57,9 @@ def model_runs(ctx):
     runs = [("arith", "Partitioner", "Partitioner.arith.cfg", "gen-part"),
             ("seq", "Partitioner", "Partitioner.seq.cfg", "gen-part"),
             ("rr", "Partitioner", "Partitioner.rr.cfg", "gen-part"),
+            ("rrpreset", "Partitioner", "Partitioner.rrpreset.cfg", "gen-part"),
+            ("rrpresetfree", "Partitioner", "Partitioner.rrpresetfree.cfg", "gen-part"),
+            ("rrmodulo", "Partitioner", "Partitioner.rrmodulo.cfg", "expect:InRange"),
             ("sim", "Partitioner", "Partitioner.sim.cfg", "sim"),
             ("asis", "Partitioner", "Partitioner.asis.cfg", "expect:NoCrash"),
             ("emptykey", "Partitioner", "Partitioner.emptykey.cfg", "expect:HashedRequiresConsistency"),
@@ -205,7 +210,7 @@ def run(ctx):
                                 % (s2["transport_errors"], s2["messages"]))
     if s1["calls"] == 0 or s2["messages"] == 0:
         raise vlib.Inconclusive("nothing was replayed")
-    if s1["behaviours"] + s1["identical_crash_prefix_not_rerun"] != len(part_cases) or s2["scenarios"] != len(prod_cases):
+    if s1["behaviours"] - s1.get("roundrobin_long_runs", 0) + s1["identical_crash_prefix_not_rerun"] != len(part_cases) or s2["scenarios"] != len(prod_cases):
         raise vlib.Inconclusive("harness replayed %d+%d of %d behaviours, %d of %d scenarios" % (
             s1["behaviours"], s1["identical_crash_prefix_not_rerun"], len(part_cases), s2["scenarios"], len(prod_cases)))
 
@@ -245,6 +250,8 @@ def run(ctx):
         "behaviours_in_subprocess": s1["in_subprocess"],
         "subprocess_crashes_observed": s1["crashes"],
         "behaviours_not_rerun_identical_crash_prefix": s1["identical_crash_prefix_not_rerun"],
+        "roundrobin_preset_cursor_behaviours": s1.get("roundrobin_preset_cursor_behaviours", 0),
+        "roundrobin_unrecorded_calls_before_recorded_tail": s1.get("roundrobin_unrecorded_calls_before_tail", 0),
         "pair_schedules_replayed": s1.get("pair_schedules", 0),
         "pair_calls_judged": s1.get("pair_calls", 0),
         "pair_calls_overlapping_another": s1.get("pair_calls_overlapping", 0),
@@ -276,6 +283,7 @@ def run(ctx):
                         "a circuit breaker may only be open after real errors: three failed leader look-ups of the same partition "
                         "(partition worker) or connection trouble; an empty writable list is a valid answer, not an error",
                         "the leaders come back while the producer is idle (all earlier messages have their outcome)",
+                        "a round-robin cursor preset through the unexported field stands for the state after that many calls",
                         "bounds: n in 1..16, <= 4 partitions per topic, 2-3 messages per scenario (recovery: 5-8), Retry.Max = 0"],
                        save={"trace.ndjson": trace, "cases.part.ndjson": cases1, "cases.prod.ndjson": cases2},
                        extra_lines=extra)
